@@ -1217,7 +1217,7 @@ func reachableAvoiding(from []*ssa.BasicBlock, stop func(*ssa.BasicBlock) bool) 
 		b := work[len(work)-1]
 		work = work[:len(work)-1]
 		for _, s := range b.Succs {
-			if seen[s] || stop(s) {
+			if seen[s] || stop(s) || !edgeFeasible(b, s) {
 				continue
 			}
 			seen[s] = true
@@ -1272,7 +1272,7 @@ func pathExists(from, to ssa.Instruction, avoid func(ssa.Instruction) bool) bool
 			}
 		}
 		for _, s := range p.b.Succs {
-			if seenBlock[s] {
+			if seenBlock[s] || !edgeFeasible(p.b, s) {
 				continue
 			}
 			seenBlock[s] = true
@@ -1307,7 +1307,7 @@ func pathToReturn(from ssa.Instruction, isTarget func(*ssa.Return) bool, avoid f
 			}
 		}
 		for _, s := range p.b.Succs {
-			if seenBlock[s] {
+			if seenBlock[s] || !edgeFeasible(p.b, s) {
 				continue
 			}
 			seenBlock[s] = true
@@ -1338,7 +1338,7 @@ func pathFromEntry(fn *ssa.Function, to ssa.Instruction, avoid func(ssa.Instruct
 			}
 		}
 		for _, s := range b.Succs {
-			if seenBlock[s] {
+			if seenBlock[s] || !edgeFeasible(b, s) {
 				continue
 			}
 			seenBlock[s] = true
@@ -1412,6 +1412,9 @@ func pathToBlocks(from ssa.Instruction, target func(*ssa.BasicBlock) bool, avoid
 			}
 		}
 		for _, s := range p.b.Succs {
+			if !edgeFeasible(p.b, s) {
+				continue
+			}
 			if target(s) {
 				found = s
 				return true
@@ -1443,4 +1446,19 @@ func pathFromBlockEntry(b *ssa.BasicBlock, to ssa.Instruction, avoid func(ssa.In
 		return false
 	}
 	return pathExists(first, to, avoid)
+}
+
+// edgeFeasible reports false when the facts that hold on the edge p->s
+// contradict each other (the same condition both true and false), e.g. the
+// fall-through edge of `switch b { case true: ...; case false: ... }`.
+func edgeFeasible(p, s *ssa.BasicBlock) bool {
+	fs := factsOnEdge(p, s)
+	for i := range fs {
+		for j := i + 1; j < len(fs); j++ {
+			if fs[i].Cond == fs[j].Cond && fs[i].Val != fs[j].Val {
+				return false
+			}
+		}
+	}
+	return true
 }
